@@ -51,6 +51,8 @@ type HReq struct {
 	// the body arrives with Transfer-Encoding: chunked, i.e. without a declared length (any HTTP/1.1
 	// client may send it that way; Go's own does for bodies of unknown size)
 	Chunked bool `json:"chunked,omitempty"`
+	// the request's context has already ended when the handler runs
+	CtxEnded bool `json:"ctx_ended,omitempty"`
 }
 
 type HTTPCase struct {
@@ -119,8 +121,10 @@ func whoisFor(r HReq) (resp *apitype.WhoIsResponse, err error, effective []model
 		caps[capPlain] = append(rawRules(append([]model.Rule{{Action: []string{"get", "info", "put", "activate", "delete"}, Secret: []string{"*"}}}, r.Rules...)), `{"action":"get","secret":7}`)
 		identified = false
 	case "malformed-mixed-https":
+		// (a value no parser of rules can take for one: a number where a pattern belongs. A bare string
+		// in place of a one-element list is NOT used as "malformed": a parser may well accept that.)
 		prof.LoginName = "alice@example.com"
-		caps[capHTTPS] = append([]tailcfg.RawMessage{`{"action":["get"],"secret":"a"}`}, rawRules(append([]model.Rule{{Action: []string{"get", "info", "put", "activate", "delete"}, Secret: []string{"*"}}}, r.Rules...))...)
+		caps[capHTTPS] = append([]tailcfg.RawMessage{`{"action":["get"],"secret":[7]}`}, rawRules(append([]model.Rule{{Action: []string{"get", "info", "put", "activate", "delete"}, Secret: []string{"*"}}}, r.Rules...))...)
 		identified = false
 	case "anon":
 		caps[capPlain] = rawRules(r.Rules)
@@ -313,7 +317,9 @@ func runC08(t *testing.T, c HTTPCase) (*h.Violation, h.Info) {
 	var cur HReq
 	var askedAddr string
 	mux := http.NewServeMux()
-	if _, err := server.New(context.Background(), server.Config{DB: d, Mux: mux, WhoIs: func(ctx context.Context, addr string) (*apitype.WhoIsResponse, error) {
+	// (Config.AuditLog is documented as ignored when a DB is supplied; production sets it, so it is set here
+	// too - into the same counting sink: a request the front door turns away leaves no record anywhere)
+	if _, err := server.New(context.Background(), server.Config{DB: d, Mux: mux, AuditLog: audit.New(sink), WhoIs: func(ctx context.Context, addr string) (*apitype.WhoIsResponse, error) {
 		askedAddr = addr
 		if cur.Addr == "unknown" {
 			return nil, errors.New("no such peer")
@@ -347,6 +353,14 @@ func runC08(t *testing.T, c HTTPCase) (*h.Violation, h.Info) {
 			remote = "not-an-address"
 		}
 		req := httptest.NewRequest(r.Method, "/api/"+r.Endpoint, bytes.NewReader(body))
+		if r.CtxEnded {
+			// the client has gone away (its connection closed, a proxy gave up): the request's context has
+			// ended by the time the handler runs - the reply it composes must be the same
+			ectx, ecancel := context.WithCancel(req.Context())
+			ecancel()
+			req = req.WithContext(ectx)
+			info.Class("request-context-already-ended")
+		}
 		req.RemoteAddr = remote
 		if r.Chunked {
 			req.ContentLength, req.TransferEncoding = -1, []string{"chunked"}
@@ -389,22 +403,27 @@ func runC08(t *testing.T, c HTTPCase) (*h.Violation, h.Info) {
 		recBefore := sink.n()
 		before := tr.M.String()
 		w := httptest.NewRecorder()
-		outage := false
+		outage, idleOutage := false, false
 		if r.Outage && len(failed) == 0 {
 			shadow := tr.Clone()
 			b0 := shadow.M.Render(true)
 			if wantS := shadow.Expect(effective, op, ver); wantS.Class == model.OK && shadow.M.Render(true) != b0 {
 				outage = true // the request is fine and would write: its save will fail
+			} else {
+				// the request writes nothing (a read, a refusal, a delete of what is not there): it is
+				// answered as always - a server that is up serves from what it holds, disk or no disk
+				idleOutage = true
+				info.Class("state-directory-unavailable-during-a-request-that-writes-nothing")
 			}
 		}
 		var pv *h.Violation
 		serve := func() { pv = h.Safely(func() *h.Violation { mux.ServeHTTP(w, req); return nil }) }
-		if outage {
+		if outage || idleOutage {
 			held, err := dbx.Outage(dir, serve)
 			if err != nil {
 				return h.V("harness", "%v", err), info
 			}
-			outage = held // (not held: the code put the directory back itself - an ordinary request)
+			outage = outage && held // (not held: the code put the directory back itself - an ordinary request)
 		} else {
 			serve()
 		}
@@ -456,7 +475,8 @@ func runC08(t *testing.T, c HTTPCase) (*h.Violation, h.Info) {
 			sink.mu.Unlock()
 			continue
 		}
-		if r.Chunked && (status == 400 || status == 411 || status == 413 || status == 415 || status == 501) && sink.n() == recBefore {
+		if ((r.Chunked && (status == 400 || status == 411 || status == 413 || status == 415 || status == 501)) || (r.CtxEnded && status >= 400)) && sink.n() == recBefore {
+			// (likewise a server may decline to work for a client that has already gone away)
 			// a server may insist on a declared body length (the project's own client always sends one):
 			// refusing the request outright, before it reaches the store, is not a wrong answer to it
 			if dump, err := dbx.Dump(d); err != nil || dbx.DumpDiff(dump, tr.M) != "" {
@@ -693,6 +713,7 @@ func genHReq(rt *rapid.T) HReq {
 	r.Spoof = rapid.SampledFrom([]string{"", "", "", "X-Forwarded-For", "X-Real-Ip", "Forwarded", "Tailscale-User-Login"}).Draw(rt, "spoof")
 	r.Outage = rapid.IntRange(0, 2).Draw(rt, "outage") == 0
 	r.Chunked = rapid.IntRange(0, 3).Draw(rt, "chunked") == 0
+	r.CtxEnded = rapid.IntRange(0, 5).Draw(rt, "ctxended") == 0
 	return r
 }
 
